@@ -346,6 +346,16 @@ class Engine:
         if n <= 1:
             return lo
         v = self.fresh_int(name, lo, lo + n - 1).e
+        if n > 8:
+            # large domains: binary search (log n decisions per path instead of n)
+            a, b = lo, lo + n - 1
+            while a < b:
+                mid = (a + b) // 2
+                if self.decide(M.op2('<=', v, M.intval(mid))):
+                    b = mid
+                else:
+                    a = mid + 1
+            return a
         for k in range(lo, lo + n - 1):
             if self.decide(M.op2('==', v, M.intval(k))):
                 return k
